@@ -485,19 +485,28 @@ func bfs(usage string, size, depth int) {
 	in := build(root)
 	seen[hk(hlib.Dump(in.q, "sync.Mutex")+"#"+in.m.key())] = true
 	h.State()
-	frontier := []Case{root}
+	// the frontier holds paths as op indices (one byte per operation)
+	mk := func(path []byte) Case {
+		c := Case{Usage: usage, Size: size, Ops: make([]Op, len(path))}
+		for i, x := range path {
+			c.Ops[i] = ops[x]
+		}
+		return c
+	}
+	frontier := [][]byte{{}}
 	for d := 0; d < depth; d++ {
-		var next []Case
-		for _, c := range frontier {
+		var next [][]byte
+		for _, path := range frontier {
 			if h.Expired(fmt.Sprintf("BFS %s size %d stopped at depth %d", usage, size, d)) {
 				return
 			}
-			base := build(c)
-			for _, o := range ops {
+			base := build(mk(path))
+			for oi, o := range ops {
 				if !base.enabled(o) {
 					continue
 				}
-				nc := Case{Usage: usage, Size: size, Ops: append(append([]Op{}, c.Ops...), o)}
+				np := append(append(make([]byte, 0, len(path)+1), path...), byte(oi))
+				nc := mk(np)
 				in := build(nc)
 				h.Transition()
 				h.Eval(len(nc.Ops) >= 2)
@@ -523,11 +532,13 @@ func bfs(usage string, size, depth int) {
 					h.Outcome("state-ok")
 				}
 				h.Sample(func() interface{} { return nc })
-				next = append(next, nc)
+				if d+1 < depth {
+					next = append(next, np)
+				}
 			}
 		}
+		h.Section(fmt.Sprintf("%s-size%d-depth%d-frontier", usage, size, d+1), int64(len(next)))
 		frontier = next
-		h.Section(fmt.Sprintf("%s-size%d-depth%d-new-states", usage, size, d+1), int64(len(next)))
 	}
 }
 
